@@ -46,7 +46,7 @@ type ent struct {
 }
 
 var owners = []interface{}{&struct{ n int }{1}, &struct{ n int }{2}, &struct{ n int }{3}}
-var types = []int{1, 2, 4, 3, 6, 7} // values that share bits: matching is equality, not a mask
+var types = []int{1, 2, 4, 3, 6, 7, 8, 8, 12} // the facilities' own values (DbgLogFcalls 4, DbgLogPackets 8) among them; values that share bits: matching is equality, not a mask
 
 func matches(e ent, fo, ft int) bool { // fo -1 = nil owner, ft 0 = any type
 	return (fo < 0 || e.owner == fo) && (ft == 0 || e.typ == ft)
@@ -436,7 +436,7 @@ func c20Conc(ctx *core.Ctx, N, producers int, thorough bool) core.Result {
 						return
 					default:
 					}
-					fo, ft := r.Intn(4)-1, []int{0, 0, 1, 2, 4, 3, 6, 5}[r.Intn(8)]
+					fo, ft := r.Intn(4)-1, []int{0, 0, 1, 2, 4, 3, 6, 5, 8, 0}[r.Intn(10)]
 					c0 := atomic.AddInt64(&clock, 1)
 					got := lg.Filter(ownerArg(fo), ft)
 					es, bad := decode(got)
@@ -617,7 +617,7 @@ func c20Big(ctx *core.Ctx, producers int, thorough bool) core.Result {
 						return
 					default:
 					}
-					fo, ft := r.Intn(4)-1, []int{0, 0, 1, 2, 4, 3, 6, 5}[r.Intn(8)]
+					fo, ft := r.Intn(4)-1, []int{0, 0, 1, 2, 4, 3, 6, 5, 8, 0}[r.Intn(10)]
 					es, bad := decode(lg.Filter(ownerArg(fo), ft))
 					mu.Lock()
 					if bad != "" {
@@ -754,7 +754,7 @@ func c20Porc(ctx *core.Ctx, N int, thorough bool) core.Result {
 				defer wg.Done()
 				rr := core.NewRand(ctx.Seed, fmt.Sprintf("c20porcf/%d/%d/%d", N, round, f))
 				for k := 0; k < 3; k++ {
-					fo, ft := rr.Intn(4)-1, []int{0, 0, 1, 2, 4, 3, 6, 5}[rr.Intn(8)]
+					fo, ft := rr.Intn(4)-1, []int{0, 0, 1, 2, 4, 3, 6, 5, 8, 0}[rr.Intn(10)]
 					c := atomic.AddInt64(&clock, 1)
 					es, _ := decode(lg.Filter(ownerArg(fo), ft))
 					rt := atomic.AddInt64(&clock, 1)
